@@ -29,6 +29,7 @@ type Env struct {
 	ex        *Exec
 	fr        *Frame
 	cur, old  *State
+	localSt   *State // state from which cell-resident locals are read inside old(..)
 	vars      map[string]Val
 	pkgPath   string         // package whose contract file the clause comes from ("" = global spec)
 	callerPkg *types.Package // fallback for name resolution
@@ -86,8 +87,11 @@ func (env *Env) with(name string, v Val) *Env {
 func (env *Env) inOld() *Env {
 	n := *env
 	n.cur = env.old
-	n.phiOver = nil
-	n.atBlock = nil // locals have no old value; parameters resolve from vars
+	// locals have no old value: inside old(..) a local denotes its current value (cell-resident locals are read from
+	// the current state), only the heap is the entry heap
+	if n.localSt == nil {
+		n.localSt = env.cur
+	}
 	return &n
 }
 
@@ -260,7 +264,11 @@ func (env *Env) ident(name string) Val {
 		return v
 	}
 	if env.fr != nil && env.atBlock != nil {
-		if v, ok := env.fr.lookupLocal(name, env.atBlock, env.atInstr, env.phiOver, env.cur); ok {
+		lst := env.cur
+		if env.localSt != nil {
+			lst = env.localSt
+		}
+		if v, ok := env.fr.lookupLocal(name, env.atBlock, env.atInstr, env.phiOver, lst); ok {
 			return v
 		}
 	}
